@@ -16,7 +16,8 @@ package oidc
 
 import (
 	"context"
-	"math/rand"
+	"crypto/rand"
+	"math/big"
 	"time"
 
 	"github.com/redis/go-redis/v9"
@@ -146,10 +147,8 @@ var (
 )
 
 type (
-	// randomGenerator is a session generator that uses random strings.
-	randomGenerator struct {
-		rand *rand.Rand
-	}
+	// randomGenerator is a session generator that uses random strings drawn from crypto/rand.
+	randomGenerator struct{}
 
 	// staticGenerator is a session generator that uses static strings.
 	staticGenerator struct {
@@ -162,9 +161,7 @@ type (
 
 // NewRandomGenerator creates a new random session generator.
 func NewRandomGenerator() SessionGenerator {
-	return &randomGenerator{
-		rand: rand.New(rand.NewSource(time.Now().UnixNano())),
-	}
+	return &randomGenerator{}
 }
 
 func (r randomGenerator) GenerateSessionID() string {
@@ -183,11 +180,21 @@ func (r randomGenerator) GenerateCodeVerifier() string {
 	return oauth2.GenerateVerifier()
 }
 
+// generate returns n characters drawn uniformly from crypto/rand. Session ids, nonces and states
+// must not be predictable from each other or from the request time, so a time-seeded math/rand
+// generator (whose whole output follows from its seed) is not acceptable here.
 func (r *randomGenerator) generate(n int) string {
 	const charset = "abcdefghijklmnopqrstuvwxyzABCDEFGHIJKLMNOPQRSTUVWXYZ0123456789"
+	max := big.NewInt(int64(len(charset)))
 	b := make([]byte, n)
 	for i := range b {
-		b[i] = charset[r.rand.Intn(len(charset))]
+		idx, err := rand.Int(rand.Reader, max)
+		if err != nil {
+			// the system's entropy source is unavailable; as in oauth2.GenerateVerifier there is
+			// nothing sensible to continue with
+			panic(err)
+		}
+		b[i] = charset[idx.Int64()]
 	}
 	return string(b)
 }
